@@ -33,10 +33,11 @@ import (
 // ---------- derivations ----------
 
 type pnode struct {
-	Kind string // num str bool var group un bin index slice dot assert call arr
+	Kind string // num str bool var group un bin index slice dot assert call arr map
 	Op   string // token type name for un/bin
 	Lit  string // literal text / variable name / key / function name
 	Ty   string // for assert: asserted type
+	Keys []string // for map: the keys, one per kid (distinct)
 	Kids []*pnode
 	// value of the node (one of float64, string, bool, []any), computed at construction
 	Val any
@@ -246,7 +247,13 @@ func (g *precGen) primary(typ string, depth int) *pnode {
 	// postfix / call forms (S2 part of the theorem; always in the correspondence)
 	switch typ {
 	case "num":
-		switch g.pick(7) {
+		switch g.pick(8) {
+		case 7: // {k1:e1 k2:e2}.k : map literal inside a derivation, values are tight contexts
+			a, b := g.gen(lvOr, "num", depth-1), g.gen(lvOr, "num", depth-1)
+			keys := [][]string{{"a", "b"}, {"k", "a"}, {"x1", "y"}}[g.pick(3)]
+			i := g.pick(2)
+			m := &pnode{Kind: "map", Keys: keys, Kids: []*pnode{a, b}}
+			return &pnode{Kind: "dot", Lit: keys[i], Kids: []*pnode{m}, Val: []*pnode{a, b}[i].Val}
 		case 0:
 			i := smallIndex(g, 3)
 			return &pnode{Kind: "index", Kids: []*pnode{{Kind: "var", Lit: "arr"}, i}, Val: []float64{4, 5, 6}[int(i.Val.(float64))]}
@@ -354,6 +361,12 @@ func (n *pnode) sx() SX {
 			l = append(l, k.sx())
 		}
 		return LstOf(l)
+	case "map":
+		l := []SX{Sym("map")}
+		for i, k := range n.Kids {
+			l = append(l, Lst(Str(n.Keys[i]), k.sx()))
+		}
+		return LstOf(l)
 	}
 	panic("pnode.sx: " + n.Kind)
 }
@@ -419,7 +432,7 @@ func tighten(n *pnode) *pnode {
 		c := *n
 		c.Kids = append([]*pnode{tighten(n.Kids[0])}, n.Kids[1:]...)
 		return &c
-	case "arr":
+	case "arr", "map":
 		c := *n
 		c.Kids = nil
 		for _, k := range n.Kids {
@@ -442,6 +455,8 @@ func firstChar(n *pnode) byte {
 		return opText[n.Op][0]
 	case "arr":
 		return '['
+	case "map":
+		return '{'
 	case "call":
 		return n.Lit[0]
 	}
@@ -462,6 +477,8 @@ func lastChar(n *pnode) byte {
 		return lastChar(n.Kids[1])
 	case "index", "slice", "arr":
 		return ']'
+	case "map":
+		return '}'
 	case "dot":
 		return n.Lit[len(n.Lit)-1]
 	case "call":
@@ -530,6 +547,15 @@ func (ly *layouter) render(n *pnode, tight bool) string {
 			s += ly.render(tighten(k), true)
 		}
 		return s + ly.ws(false) + "]"
+	case "map": // "{" k ":" value ... "}" : free inside the braces, values tight
+		s := "{" + ly.ws(false)
+		for i, k := range n.Kids {
+			if i > 0 {
+				s += ly.sep()
+			}
+			s += n.Keys[i] + ":" + ly.ws(false) + ly.render(tighten(k), true)
+		}
+		return s + ly.ws(false) + "}"
 	}
 	panic("render: " + n.Kind)
 }
@@ -549,7 +575,7 @@ func retighten(n *pnode, tight bool) *pnode {
 		switch {
 		case n.Kind == "group", (n.Kind == "index" || n.Kind == "slice") && i > 0:
 			c.Kids = append(c.Kids, retighten(k, false))
-		case n.Kind == "call", n.Kind == "arr":
+		case n.Kind == "call", n.Kind == "arr", n.Kind == "map":
 			c.Kids = append(c.Kids, retighten(k, true))
 		default:
 			c.Kids = append(c.Kids, retighten(k, false)) // already tightened above when tight
@@ -1070,7 +1096,7 @@ func runC01prec(cfg Config, r *Result) {
 		return
 	}
 	defer model.Close()
-	r.Rule = "random derivations of the layered left-associative grammar (or < and < ==,!= < <,<=,>,>= < +,- < *,/,% < unary -,! < primary: literal, variable, ( e ), a[i], a[i:j], m.k, an.(num), (max e e), [e e][i]), well typed over num/bool/string, depth <= 6 (quick) / 10 (thorough), random redundant parentheses; each rendered under 3 legal layouts (random, minimal, one-space) in one of 9 statement contexts (decl, assign, if condition, index assignment: free; print arguments, array elements, call arguments, map value: tight; print (e): free inside); plus a perturbed stream (whitespace inserted/removed at random boundaries). Non-trivial = at least 2 distinct operators and 5 nodes; distinct = distinct statement text."
+	r.Rule = "random derivations of the layered left-associative grammar (or < and < ==,!= < <,<=,>,>= < +,- < *,/,% < unary -,! < primary: literal, variable, ( e ), a[i], a[i:j], m.k, an.(num), (max e e), [e e][i], {k1:e k2:e}.k), well typed over num/bool/string, depth <= 6 (quick) / 10 (thorough), random redundant parentheses; each rendered under 3 legal layouts (random, minimal, one-space) in one of 9 statement contexts (decl, assign, if condition, index assignment: free; print arguments, array elements, call arguments, map value: tight; print (e): free inside); plus a perturbed stream (whitespace inserted/removed at random boundaries). Non-trivial = at least 2 distinct operators and 5 nodes; distinct = distinct statement text."
 	if cfg.Replay != "" {
 		b, err := os.ReadFile(cfg.Replay)
 		if err != nil {
